@@ -212,26 +212,48 @@ def _snap_equal(s1, s2, rel=1e-12):
     return True
 
 
-def check_report(r, pred, chis_off, what, msgs):
-    """r: OptimizationResult; pred: SR.predict output."""
+def reported_hist(r):
+    """the chi2 sequence the run itself reports: initial, then one value per completed iteration."""
+    h = [_f(r.initial_chi2)] + [_f(it.chi2) for it in r.iteration_results if it.chi2 is not None]
+    return h
+
+
+def check_report(r, orbit_chis, start, tol, max_iter, what, msgs):
+    """Two independent obligations (robust against last-bit differences between two ways of summing chi2):
+    (faithful)   every chi2 the run reports equals the chi2 of the corresponding orbit state (1e-12 relative, NaN-aware);
+    (rule)       converged / num_iterations / len(iteration_results) / rel_diff are exactly what the documented rule
+                 yields for the chi2 sequence the run itself reports.
+    Returns the number of updates the run performed (by the rule applied to its own report)."""
+    h = reported_hist(r)
+    if r.initial_chi2 is None or any(x is None for x in h):
+        msgs.append("%s: report has no initial chi2" % what)
+        return 0
+    for t, c in enumerate(h):
+        if start + t >= len(orbit_chis):
+            msgs.append("%s: reports %d chi2 values, more than the %d states of the run" % (what, len(h), len(orbit_chis) - start))
+            break
+        if not _same(c, _f(orbit_chis[start + t])):
+            msgs.append("%s: reported chi2 #%d is %r but the graph's chi2 at that state is %r" % (what, t, c, orbit_chis[start + t]))
+    pred = SR.predict(lambda t: h[min(t, len(h) - 1)], tol, max_iter)
+    if len(h) != len(pred["hist"]):
+        msgs.append("%s: the run reports %d chi2 values %r; the documented rule applied to them stops after %d" % (what, len(h), h, len(pred["hist"])))
     if bool(r.converged) != pred["converged"]:
-        msgs.append("%s: converged=%s but the documented rule gives %s for chi2 sequence %r" % (what, r.converged, pred["converged"], pred["hist"]))
+        msgs.append("%s: converged=%s but the documented rule gives %s for the reported chi2 sequence %r" % (what, r.converged, pred["converged"], h))
     if r.num_iterations != pred["num_iterations"]:
-        msgs.append("%s: num_iterations=%r, expected %r (chi2 sequence %r)" % (what, r.num_iterations, pred["num_iterations"], pred["hist"]))
+        msgs.append("%s: num_iterations=%r, expected %r (reported chi2 sequence %r)" % (what, r.num_iterations, pred["num_iterations"], h))
     if len(r.iteration_results) != pred["n_results"]:
         msgs.append("%s: %d iteration results, expected %d" % (what, len(r.iteration_results), pred["n_results"]))
-    if not _same(_f(r.initial_chi2), _f(pred["initial"])):
-        msgs.append("%s: initial_chi2 %r, chi2 of the start state is %r" % (what, r.initial_chi2, pred["initial"]))
-    if not _same(_f(r.final_chi2), _f(pred["final"])):
-        msgs.append("%s: final_chi2 %r, chi2 of the final state is %r" % (what, r.final_chi2, pred["final"]))
-    got = [_f(it.chi2) for it in r.iteration_results]
-    exp = [_f(c) for c in pred["chi2s"]]
-    if len(got) == len(exp) and not all(_same(a, b) for a, b in zip(got, exp)):
-        msgs.append("%s: per-iteration chi2 %r, states have %r" % (what, got, exp))
-    gr = [_f(it.rel_diff) for it in r.iteration_results]
-    er = [_f(c) for c in pred["rel_diffs"]]
-    if len(gr) == len(er) and not all(_same(a, b, 1e-9) or (a is not None and b is not None and abs(a - b) < 1e-12) for a, b in zip(gr, er)):
+    if not _same(_f(r.final_chi2), h[-1], 0.0):
+        msgs.append("%s: final_chi2 %r is not the last reported chi2 %r" % (what, r.final_chi2, h[-1]))
+    gr = [_f(it.rel_diff) for it in r.iteration_results if it.chi2 is not None]
+    er = [-SR.rel_decrease(h[k - 1], h[k]) for k in range(1, len(h))]
+    if len(gr) != len(er) or not all(_same(a, b, 1e-9) or abs(a - b) < 1e-12 for a, b in zip(gr, er)):
         msgs.append("%s: per-iteration rel_diff %r, expected %r" % (what, gr, er))
+    comp = [it.is_complete_iteration() for it in r.iteration_results]
+    exp_comp = [True] * pred["updates"] + [False] * (pred["n_results"] - pred["updates"])
+    if comp != exp_comp and len(comp) == len(exp_comp):
+        msgs.append("%s: is_complete_iteration pattern %r, expected %r" % (what, comp, exp_comp))
+    return pred["updates"]
 
 
 def _f(x):
@@ -379,8 +401,8 @@ def _eval_direct(case, spec, info):
     msgs = []
     tol, mi = case["tol"], case["max_iter"]
     snaps, chis = orbit(spec, mi)
-    pred = SR.predict(lambda t: chis[t], tol, mi)
     outs = {}
+    upd = 0
     for verbose in (False, True):
         g, verts, edges = GB.build(spec)
         buf = io.StringIO()
@@ -388,9 +410,9 @@ def _eval_direct(case, spec, info):
             r = GB.optimize(g, tol=tol, max_iter=mi, fix_first_pose=False, verbose=verbose)
         snap = GB.snapshot(verts)
         what = "optimize(tol=%g, max_iter=%d, verbose=%s)" % (tol, mi, verbose)
-        check_report(r, pred, 0, what, msgs)
-        if not _snap_equal(snap, snaps[pred["updates"]]):
-            msgs.append("%s: returned poses are not the state after %d Gauss-Newton updates" % (what, pred["updates"]))
+        upd = check_report(r, chis, 0, tol, mi, what, msgs)
+        if upd <= mi and not _snap_equal(snap, snaps[upd]):
+            msgs.append("%s: returned poses are not the state after %d Gauss-Newton updates" % (what, upd))
         with np.errstate(all="ignore"):
             c2 = float(g.calc_chi2())
         if not _same(_f(r.final_chi2), c2):
@@ -407,13 +429,13 @@ def _eval_direct(case, spec, info):
     if o0.strip():
         msgs.append("verbose=False printed %r" % o0[:80])
     nlines = len([l for l in o1.splitlines() if l.strip() and l.strip()[0].isdigit()])
-    exp_lines = len(pred["hist"])
+    exp_lines = len(reported_hist(r1))
     if nlines != exp_lines:
         msgs.append("verbose=True printed %d chi2 lines, expected one per reported chi2 (%d)" % (nlines, exp_lines))
-    classes = ["direct:verbose", "direct:converged" if pred["converged"] else "direct:limit"]
+    classes = ["direct:verbose", "direct:converged" if r0.converged else "direct:limit"]
     if any(isinstance(c, float) and math.isnan(c) for c in chis):
         classes.append("direct:nan_chi2")
-    info.update(classes=classes, calls=2 + mi, compared=2, updates=pred["updates"], outcome="direct conv=%s iters=%d" % (pred["converged"], pred["num_iterations"]))
+    info.update(classes=classes, calls=2 + mi, compared=2, updates=upd, outcome="direct conv=%s iters=%s" % (r0.converged, r0.num_iterations))
     return msgs
 
 
@@ -428,15 +450,14 @@ def _eval_split(case, spec, info):
     calls = 0
     for j, k in enumerate(parts):
         start = u
-        pred = SR.predict(lambda t: chis[min(start + t, n)], tol, k)
-        if start + pred["updates"] > n:
+        if start >= n:
             break
         r = GB.optimize(g, tol=tol, max_iter=k, fix_first_pose=False)
         calls += 1
         what = "call %d of split %r (tol=%g), starting after %d updates" % (j + 1, parts, tol, start)
-        check_report(r, pred, start, what, msgs)
-        u = start + pred["updates"]
-        if not _snap_equal(GB.snapshot(verts), snaps[u]):
+        upd = check_report(r, chis, start, tol, k, what, msgs)
+        u = start + upd
+        if u > n or not _snap_equal(GB.snapshot(verts), snaps[min(u, n)]):
             msgs.append("%s: graph is not at orbit state %d after the call (hidden state between calls)" % (what, u))
             break
         if msgs:
